@@ -98,6 +98,14 @@ REGEX = ('{m: matches(s, "^[a-z]+[0-9]*(x|y)?[a-z0-9 ]*$"), r: replace(s, "([a-z
          'sa: substring after(s, "a"), lo: lower case(s + "ÀÉ"), ew: ends with(s, "x")}')
 
 
+# several DIFFERENT patterns with flags evaluated side by side (matches and replace with i, s, m, x): anything shared between calls
+# that is keyed on "the pattern used last" is thrashed by this invocable
+FLAGS = ('{a: matches(s, "^[A-Z]+[0-9]*", "i"), b: matches(s + "\\nx", "a.x", "s"), c: replace(s + "\\nb", "^b", "0", "m"), '
+         'd: replace(s, "E", "3", "i"), e: matches(s, "b e t a", "x"), '
+         'f: for i in 1..8 return matches(string(i) + s, "^" + string(i) + "B", "i"), '
+         'g: for i in 1..8 return replace(s, "[A-Y]" + string(k), string(i), "i"), h: matches(s, "^BETA", "i") and not(matches(s, "^BETA"))}')
+
+
 def _grid_rules():
     rules = []
     # 40 rules over (k, n): bands of n for every k
@@ -130,6 +138,7 @@ def build():
     parts.append(_decision("Rounding", "_rounding", _req_inputs(["n", "m"]), _literal(ROUNDING)))
     parts.append(_decision("Temporal", "_temporal", _req_inputs(["d", "ts", "k"]), _literal(TEMPORAL)))
     parts.append(_decision("Regex", "_regex", _req_inputs(["s", "k"]), _literal(REGEX)))
+    parts.append(_decision("Flags", "_flags", _req_inputs(["s", "k"]), _literal(FLAGS)))
     parts.append(_decision("Grid", "_grid", _req_inputs(["k", "n"]),
                            _table("UNIQUE", None, [("k", "number"), ("n", "number")], "string", _grid_rules()), "string"))
     parts.append(_decision("Collect", "_collect", _req_inputs(["n", "k"]),
@@ -176,11 +185,11 @@ XML = build()
 CLASSES = {
     "numeric": ["Numeric", "Powers", "Rounding"],
     "temporal": ["Temporal"],
-    "regex": ["Regex", "Priority"],
+    "regex": ["Regex", "Flags", "Priority"],
     "table": ["Grid", "Collect", "Priority"],
     "nested": ["Top", "Mid", "Outer", "Svc", "Leaf", "Calc", "Band"],
 }
-INVOCABLES = ["Numeric", "Powers", "Rounding", "Temporal", "Regex", "Grid", "Collect", "Priority", "Base", "Leaf", "Svc", "Calc", "Band",
+INVOCABLES = ["Numeric", "Powers", "Rounding", "Temporal", "Regex", "Flags", "Grid", "Collect", "Priority", "Base", "Leaf", "Svc", "Calc", "Band",
               "Mid", "Top", "Outer"]
 
 
